@@ -458,7 +458,7 @@ func runCrash(c *Ctx) {
 	}
 	reps := max(n/5000, 3)
 	for rep := 0; rep < reps; rep++ {
-		for fam := 0; fam < 12; fam++ {
+		for fam := 0; fam < nFamilies; fam++ {
 			for size := 0; size <= 12; size++ {
 				q, in := g.structuredCase(fam, size)
 				submit("structured", libCase(q, in, svars(size)))
@@ -474,7 +474,7 @@ func runCrash(c *Ctx) {
 		switch {
 		case k < 4:
 			size := g.r.Intn(13)
-			q, in := g.structuredCase(g.r.Intn(12), size)
+			q, in := g.structuredCase(g.r.Intn(nFamilies), size)
 			submit("structured", libCase(q, in, svars(size)))
 		case k < 9:
 			cq := g.corpus[g.r.Intn(len(g.corpus))]
